@@ -35,6 +35,14 @@ RULE = ('for each call form: all tables of n rows (two fields) x every subset of
         'LookupError, TypeError, ValueError, AttributeError, StopIteration, RuntimeError, ZeroDivisionError besides '
         'the custom class) x all inputs of <= 2 rows (3 thorough) x policy x {argument, config} x errorvalue '
         '{omitted, "ERR"}: the expected observation does not depend on the type.  '
+        'Exception objects as data: every form x every assignment of {ok, failing, exception OBJECT (instance of '
+        'the custom class / ValueError / KeyError that nobody raised)} to the cells of tables of <= 2 rows (3 '
+        'thorough; ragged and rowmapmany tables likewise); the user functions hand such objects on as values (they '
+        'RETURN them), copy mappings copy them, untouched fields keep them.  Two-stage pipelines: an upstream '
+        'convert / fieldmap run with failonerror="inline" (its failing cells become exception objects) feeding a '
+        'downstream fieldmap (copy, composed, record functions) / convert (incl. pass_row, builtin int) / rowmap '
+        '(incl. lazy rows) run with the policy under test, x the type the upstream functions raise.  The policy must '
+        'react only to exceptions RAISED by the user function of this stage.  '
         'Stateful user functions: every form that has user functions is also run with fail-once functions (raise '
         'only the first time they meet an offending value, succeed on a retry; None always fails) and with '
         'call-counting functions (a result carries how often this function was called with these arguments) over '
@@ -76,6 +84,8 @@ def _nmax(tier):
 def bounds(tier, seed):
     return {'max_rows': _nmax(tier), 'max_rows_rowmapmany': 5 if tier == 'thorough' else 4,
             'forms': len(BUILD), 'policies': 3, 'user_exception_types': list(ref.KIND_ORDER),
+            'data_exception_classes': list(ref.DATA_CLASS_ORDER), 'data_exception_space_max_rows': 3 if tier == 'thorough' else 2,
+            'pipelines': ['%s -> %s' % (u, d) for u in UPSTREAMS for d in DOWNSTREAMS],
             'user_function_states': list(ref.STATES), 'call_log': 'informational counter only',
             'exception_type_space_max_rows': 3 if tier == 'thorough' else 2,
             'short_row_forms_max_rows': 4 if tier == 'thorough' else 3, 'modes': list(MODES), 'errorvalues': ['<omitted>', None, 'ERR']}
@@ -129,6 +139,8 @@ BUILD = {
     'fieldmap{p: "int({a})", q: "{b}"}': lambda t, kw, sel: etl.fieldmap(
         t, _od(('p', 'int({a})'), ('q', '{b}')), **kw),
     'fieldmap()[p] = (a, f); [q] = b': _suffix_fieldmap,
+    'fieldmap{a: (a, f), b: b}': lambda t, kw, sel: etl.fieldmap(
+        t, _od(('a', ('a', ref.conv)), ('b', 'b')), **kw),
     'rowmap(f)': lambda t, kw, sel: etl.rowmap(t, ref.rowmapper, header=('x', 'y', 'z'), **kw),
     'rowmap(natural)': lambda t, kw, sel: etl.rowmap(t, ref.rowmapper_natural, header=('x', 'y'), **kw),
     'fieldmap{p: (a, f), q: (b, f), r: b} on short rows': lambda t, kw, sel: etl.fieldmap(
@@ -179,9 +191,11 @@ def _payload(e):
 
 
 def _normcell(c):
-    if isinstance(c, BaseException):
-        return (ref.EXC, _payload(c))
-    return c
+    return ref.norm_cell(c)
+
+
+def _normlog(log):
+    return [tuple(ref.norm_cell(x) for x in e) for e in log]
 
 
 def _normrow(r):
@@ -191,19 +205,19 @@ def _normrow(r):
         return ('<not a row>', repr(r)[:80])
 
 
-def observe(form, tbl, policy, mode, errorvalue, selected, state='pure'):
+def observe(form, tbl, policy, mode, errorvalue, selected, state='pure', upstream=None):
     """One pass over the real view in a fresh user-function context.
     Returns (delivered rows, payload of terminating exception or None, stage, call log)."""
     ctx = ref.Ctx(state)
     old = ref.swap_ctx(ctx)
     try:
-        delivered, raised, stage = _observe(form, tbl, policy, mode, errorvalue, selected)
+        delivered, raised, stage = _observe(form, tbl, policy, mode, errorvalue, selected, upstream)
     finally:
         ref.swap_ctx(old)
     return delivered, raised, stage, ctx.log
 
 
-def _observe(form, tbl, policy, mode, errorvalue, selected):
+def _observe(form, tbl, policy, mode, errorvalue, selected, upstream=None):
     kw = {}
     if errorvalue is not ref.OMIT and errorvalue != ref.OMIT:
         kw['errorvalue'] = errorvalue
@@ -226,7 +240,11 @@ def _observe(form, tbl, policy, mode, errorvalue, selected):
         else:
             raise ValueError(mode)
         try:
-            view = BUILD[form](tbl, kw, sel)
+            src = tbl
+            if upstream is not None:
+                # upstream stage of a pipeline: always failonerror='inline' (explicit argument)
+                src = BUILD[upstream](tbl, {'failonerror': 'inline'}, sel)
+            view = BUILD[form](src, kw, sel)
         except Exception as e:
             return delivered, _payload(e), 'construction'
         if mode == 'config-at-construction':
@@ -251,19 +269,27 @@ def _observe(form, tbl, policy, mode, errorvalue, selected):
 
 def check_case(case):
     """Returns None or (signature, expected, observed, msg)."""
-    form, tbl, policy, mode = case['form'], case['table'], case['policy'], case['mode']
+    form, policy, mode = case['form'], case['policy'], case['mode']
+    tbl = ref.materialise(case['table'])      # ('DATAEXC', class, tag) markers -> exception objects (data)
     ev = case.get('errorvalue', ref.OMIT)
     selected = case.get('selected')
+    upstream = case.get('upstream')
     ref.set_kind(case.get('exc', 'Boom'))
     state = case.get('state', 'pure')
     try:
-        exp = ref.expected(form, tbl, policy, ev, set(selected) if selected is not None else None, state)
-        delivered, raised, stage, log = observe(form, tbl, policy, mode, ev, selected, state)
+        if upstream is not None:
+            exp = ref.expected_pipeline(upstream, form, tbl, policy, ev)
+        else:
+            exp = ref.expected(form, tbl, policy, ev, set(selected) if selected is not None else None, state)
+        delivered, raised, stage, log = observe(form, tbl, policy, mode, ev, selected, state, upstream)
     finally:
         ref.set_kind('Boom')
+    if upstream is not None:
+        form = '%s -> %s' % (upstream, form)
     if ref.matches(exp, delivered, raised):
         # the call log is information only: the statement does not fix number or order of calls
-        exp['log_differs'] = (log != exp['log'])
+        exp['log_differs'] = (upstream is None and log != exp['log']
+                              and _normlog(log) != _normlog(exp['log']))
         return None, exp, delivered, raised
     # failure signature (never contains input values)
     if exp['raises'] is None and raised is not None:
@@ -281,6 +307,7 @@ def check_case(case):
         sig = 'wrong number of rows under %r' % (policy,)
     else:
         sig = 'wrong cell or row content under %r' % (policy,)
+    log, exp['log'] = _normlog(log), _normlog(exp['log'])
     observed = {'delivered': delivered, 'raised': raised, 'at': stage, 'calls': _showlog(log)}
     expected = {'delivered': exp['rows'], 'raised': exp['raises'], 'optional_tail': exp['optional'],
                 'calls': _showlog(exp['log'])}
@@ -395,7 +422,26 @@ def items(tier, seed):
                 continue
             for state in ref.STATES[1:]:
                 stateful.append((form, n, KIND_MODES, 'Boom', state))
-    return out + kinds + stateful
+    # exception OBJECTS as ordinary data: in the source table of every form, and left by an upstream 'inline' stage
+    data, pipes = [], []
+    dmax = 3 if tier == 'thorough' else 2
+    for n in range(1, dmax + 1):
+        for form in spaces.rotate(sorted(BUILD), seed):
+            st = ref.FORMS[form]['style']
+            if st == 'many-lazy' and n > (2 if tier == 'thorough' else 1):
+                continue
+            if st in ('many', 'ragged') and n > 2:
+                continue
+            if ref.FORMS[form].get('where') and n > 2:
+                continue
+            for dclass in ref.DATA_CLASS_ORDER:
+                data.append(('@data', form, n, dclass))
+        for up in UPSTREAMS:
+            for down in DOWNSTREAMS:
+                for kind in PIPE_KINDS:
+                    if n <= 2:
+                        pipes.append(('@pipe', up, down, n, kind))
+    return out + kinds + stateful + data + pipes
 
 
 KIND_MODES = ('arg', 'config')
@@ -427,7 +473,81 @@ def _kind_forms():
 KIND_FORMS = _kind_forms()
 
 
+UPSTREAMS = ('convert(name, f)', 'convert((a, b), f)', 'fieldmap{a: (a, f), b: b}')
+DOWNSTREAMS = ('fieldmap{p: (a, f), q: (b, g), r: a}', 'fieldmap()[p] = (a, f); [q] = b',
+               'fieldmap{p: rowfun, q: rowfun}', 'fieldmap{a: (a, f), b: b}', 'convert(index, f)',
+               'convert((a, b), f)', 'convert((a, b), f, pass_row)', 'convert(a, int)', 'rowmap(f)',
+               'rowmap(f -> generator expression)')
+PIPE_KINDS = ('Boom', 'ValueError', 'KeyError')
+
+
+def tables3_of(form, n, dclass):
+    """Inputs of size n in which at least one cell holds an exception OBJECT as data (class dclass):
+    every assignment of {ok, bad, exception object} to the cells (ragged forms: plus absent / empty;
+    rowmapmany forms: every behaviour vector x every subset of rows whose a cell is an exception object)."""
+    spec = ref.FORMS[form]
+    style = spec['style']
+    if style in ('many', 'many-call', 'many-lazy'):
+        for tbl, _, _, _ in tables_of(form, n):
+            for excrows in _subsets(range(n)):
+                if not excrows:
+                    continue
+                behaviours = [_behaviour(r[1]) for r in tbl[1:]]
+                yield ref.many_table(_R, behaviours, set(excrows), dclass), None
+        return
+    if style == 'ragged':
+        for vec in itertools.product(ref.RAGGED_STATES_EXC, repeat=n):
+            if any(st != 'empty' and 'exc' in st for st in vec):
+                yield ref.ragged_table(_R, vec, dclass), None
+        return
+    cells = [(i, f) for i in range(n) for f in (0, 1)]
+    for states in itertools.product(('ok', 'bad', 'exc'), repeat=len(cells)):
+        if 'exc' not in states:
+            continue
+        bad = set(c for c, st in zip(cells, states) if st == 'bad')
+        exc = set(c for c, st in zip(cells, states) if st == 'exc')
+        tbl = ref.table(style, _R, n, bad, exc, dclass)
+        if spec.get('where'):
+            for selected in _subsets(range(n)):
+                yield tbl, list(selected)
+        else:
+            yield tbl, None
+
+
+def _behaviour(bcell):
+    """Inverse of ref.many_cell."""
+    if bcell.startswith('k'):
+        return ('ok', int(bcell[1:]))
+    if len(bcell) == 3:
+        return ('fail', (int(bcell[1]), int(bcell[2])))
+    return ('fail', int(bcell[1:]))
+
+
+def pipe_tables(n):
+    """Every assignment of {ok, bad, exception object} to the cells of an n-row table (the bad cells become
+    exception cells of the upstream 'inline' stage)."""
+    cells = [(i, f) for i in range(n) for f in (0, 1)]
+    for states in itertools.product(('ok', 'bad', 'exc'), repeat=len(cells)):
+        bad = set(c for c, st in zip(cells, states) if st == 'bad')
+        exc = set(c for c, st in zip(cells, states) if st == 'exc')
+        if not bad and not exc:
+            continue
+        yield ref.table('num', _R, n, bad, exc, 'ValueError'), None
+
+
 def run_item(item, acc):
+    if item[0] == '@data':
+        _, form, n, dclass = item
+        evs = KIND_ERRORVALUES if ref.has_errorvalue(form) else (ref.OMIT,)
+        _run_tables(acc, form, tables3_of(form, n, dclass), KIND_MODES, evs, 'Boom', 'pure', None,
+                    'exception objects as data')
+        return
+    if item[0] == '@pipe':
+        _, upstream, form, n, kind = item
+        evs = KIND_ERRORVALUES if ref.has_errorvalue(form) else (ref.OMIT,)
+        _run_tables(acc, form, pipe_tables(n), KIND_MODES, evs, kind, 'pure', upstream,
+                    'two-stage pipelines')
+        return
     form, n, modes = item[:3]
     kind = item[3] if len(item) > 3 else 'Boom'
     state = item[4] if len(item) > 4 else 'pure'
@@ -439,23 +559,45 @@ def run_item(item, acc):
         evs = RAGGED_ERRORVALUES
     else:
         evs = ERRORVALUES
+    _run_tables(acc, form, ((t, sel) for t, sel, _, _ in tables_of(form, n)), modes, evs, kind, state, None, None)
+
+
+def _is_exc(c):
+    return isinstance(c, tuple) and c[:1] == (ref.EXC,)
+
+
+def _is_data(c):
+    return isinstance(c, tuple) and len(c) == 3 and c[0] == 'DATAEXC'
+
+
+def _run_tables(acc, form, tables, modes, evs, kind, state, upstream, family):
     sampled = False
-    for tbl, selected, nfail, nok in tables_of(form, n):
+    for tbl, selected in tables:
         acc.states += 1
         # non-trivial by RULE, measured on the model: something fails and something does not
+        # (data-exception families: an exception object that nobody raised in this stage reaches the stage)
         ref.set_kind(kind)
         try:
-            e2 = ref.expected(form, tbl, 'inline', ref.OMIT, set(selected) if selected is not None else None)
+            mt = ref.materialise(tbl)
+            if upstream is not None:
+                e2 = ref.expected_pipeline(upstream, form, mt, 'inline', ref.OMIT)
+                t1 = ref.expected(upstream, mt, 'inline', ref.OMIT)['rows']
+                carried = any(_is_exc(c) or _is_data(c) for r in t1[1:] for c in r)
+            else:
+                e2 = ref.expected(form, mt, 'inline', ref.OMIT, set(selected) if selected is not None else None)
+                carried = any(_is_data(c) for r in tbl[1:] for c in r)
         finally:
             ref.set_kind('Boom')
         flat = [c for r in e2['rows'][1:] for c in r]
-        nx = sum(1 for c in flat if isinstance(c, tuple) and c[:1] == (ref.EXC,))
-        nontrivial = 0 < nx < len(flat)
+        nx = sum(1 for c in flat if _is_exc(c))
+        nontrivial = (0 < nx < len(flat)) if family is None else carried
         first = True
         for mode in modes:
             for policy in POLICIES:
                 for ev in evs:
                     case = {'form': form, 'table': tbl, 'policy': policy, 'mode': mode}
+                    if upstream is not None:
+                        case['upstream'] = upstream
                     if kind != 'Boom':
                         case['exc'] = kind
                     if state != 'pure':
@@ -466,13 +608,16 @@ def run_item(item, acc):
                         case['selected'] = selected
                     bad, exp, delivered, raised = check_case(case)
                     acc.evals += 1
-                    acc.transitions += 1
+                    acc.transitions += 1 if upstream is None else 2
                     if first:
                         first = False
                         if nontrivial:
                             acc.nontrivial += 1
-                            acc.counters['nontrivial:' + form] += 1
-                            if kind != 'Boom':
+                            if family is None:
+                                acc.counters['nontrivial:' + form] += 1
+                            else:
+                                acc.counters['nontrivial %s:%s' % (family, FUNCTION[form])] += 1
+                            if kind != 'Boom' and family is None:
                                 acc.counters['nontrivial with user exception type:' + kind] += 1
                             if state != 'pure':
                                 acc.counters['nontrivial with %s user functions' % state] += 1
@@ -480,7 +625,7 @@ def run_item(item, acc):
                         acc.counters['info:call log differs from the once-per-cell model'] += 1
                     acc.counters['evals:' + form] += 1
                     acc.outcome((policy, len(delivered), raised is not None,
-                                 sum(1 for r in delivered for c in r if isinstance(c, tuple) and c[:1] == (ref.EXC,))))
+                                 sum(1 for r in delivered for c in r if _is_exc(c))))
                     if nontrivial and not sampled and policy == 'inline':
                         sampled = True
                         acc.sample({'case': case, 'delivered': delivered, 'raised': raised}, 1)
@@ -488,7 +633,7 @@ def run_item(item, acc):
                         sig, expected, observed, msg = bad
                         if mode != 'arg' and check_case(dict(case, mode='arg'))[0] is None:
                             sig += ' [only when the policy is supplied via %s]' % mode
-                        acc.violation('%s | %s' % (FUNCTION[form], sig), case, expected, observed, msg)
+                        acc.violation('%s | %s' % (FUNCTION[case['form']], sig), case, expected, observed, msg)
 
 
 def vacuity(cov, tier):
@@ -497,4 +642,9 @@ def vacuity(cov, tier):
            ['no non-trivial case with user functions raising %s' % k for k in ref.KIND_ORDER[1:]
             if not c.get('nontrivial with user exception type:' + k)] + \
            ['no non-trivial case with %s user functions' % st for st in ref.STATES[1:]
-            if not c.get('nontrivial with %s user functions' % st)]
+            if not c.get('nontrivial with %s user functions' % st)] + \
+           ['no non-trivial case in family %r for %s' % (fam, fn)
+            for fam in ('exception objects as data', 'two-stage pipelines')
+            for fn in (('convert', 'fieldmap', 'rowmap', 'rowmapmany') if fam.startswith('exception')
+                       else ('convert', 'fieldmap', 'rowmap'))
+            if not c.get('nontrivial %s:%s' % (fam, fn))]
